@@ -390,7 +390,7 @@ class Parser:
                     self.eat(")")
                     e = ("ternary", ("bin", "<" if name == "min_t" else ">", a, b), a, b)
                     continue
-                if name == "caa_container_of":
+                if name in ("caa_container_of", "cds_list_entry", "cds_list_first_entry"):
                     a = self.assign()
                     self.eat(",")
                     ty = []
@@ -399,6 +399,8 @@ class Parser:
                     self.eat(",")
                     mem = self.eat()
                     self.eat(")")
+                    if name == "cds_list_first_entry":
+                        a = ("member", a, "next", True)          # cds_list_first_entry(head, T, m) = cds_list_entry((head)->next, T, m)
                     e = ("container_of", a, " ".join(ty), mem)
                     continue
                 args = []
@@ -534,11 +536,20 @@ class Parser:
             step = None if self.peek() == ")" else self.expr()
             self.eat(")")
             body = self.stmt()
-            if contains_kind(body, "continue"):
-                raise Unsupported("continue inside a for loop with a step expression")
             out = []
             if init is not None:
                 out.append(("expr", init))
+            if contains_kind(body, "continue") and step is not None:
+                # `continue` must still run the step: the body becomes a one-trip loop that `continue` leaves; a `break` of the
+                # body leaves the for loop through a flag
+                self.tr.forn = getattr(self.tr, "forn", 0) + 1
+                bflag = "_forbrk%d" % self.tr.forn
+                self.tr.locals.add(bflag)
+                body2 = subst_break_continue(body, bflag)
+                inner = ("loop", ("block", [body2, ("break",)]))
+                out.append(("expr", ("assign", ("id", bflag), ("num", 0))))
+                out.append(("while", cond, ("block", [inner, ("if", ("id", bflag), ("break",), ("block", [])), ("expr", step)])))
+                return ("block", out)
             out.append(("while", cond, ("block", [body] + ([("expr", step)] if step is not None else []))))
             return ("block", out)
         if tok == "switch":
@@ -1364,6 +1375,21 @@ def subst_continue(stmts, flag):
     return [f(x) for x in stmts]
 
 
+def subst_break_continue(t, bflag):
+    """body of a for loop rendered as a one-trip loop: `continue` -> leave the one-trip loop, `break` -> set the flag and leave"""
+    if isinstance(t, tuple) and t and t[0] == "continue":
+        return ("break",)
+    if isinstance(t, tuple) and t and t[0] == "break":
+        return ("block", [("expr", ("assign", ("id", bflag), ("num", 1))), ("break",)])
+    if isinstance(t, tuple) and t and t[0] in ("loop", "while", "dowhile", "listloop", "switch"):
+        return t
+    if isinstance(t, tuple):
+        return tuple(subst_break_continue(x, bflag) if isinstance(x, (tuple, list)) else x for x in t)
+    if isinstance(t, list):
+        return [subst_break_continue(x, bflag) if isinstance(x, (tuple, list)) else x for x in t]
+    return t
+
+
 def contains_label(t, l):
     if isinstance(t, tuple) and len(t) == 2 and t[0] == "label" and t[1] == l:
         return True
@@ -1459,16 +1485,23 @@ UNITS = [
       ("urcu_workqueue_resume_worker", "src/workqueue.c"), ("urcu_workqueue_wait_completion", "src/workqueue.c"),
       ("_urcu_workqueue_wait_complete", "src/workqueue.c")]),
     ("memb.", ("RCU_MEMBARRIER",), ("src/urcu.c",), ["src/urcu.c", "src/urcu-wait.h"],
-     [("smp_mb_master", "src/urcu.c"), ("wait_gp", "src/urcu.c"), ("wait_for_readers", "src/urcu.c"), ("synchronize_rcu", "src/urcu.c")]),
+     [("smp_mb_master", "src/urcu.c"), ("wait_gp", "src/urcu.c"), ("wait_for_readers", "src/urcu.c"), ("synchronize_rcu", "src/urcu.c"),
+      ("rcu_register_thread", "src/urcu.c"), ("rcu_unregister_thread", "src/urcu.c")]),
     ("mb.", ("RCU_MB",), ("src/urcu.c",), ["src/urcu.c", "src/urcu-wait.h"],
      [("smp_mb_master", "src/urcu.c"), ("wait_gp", "src/urcu.c"), ("wait_for_readers", "src/urcu.c"), ("synchronize_rcu", "src/urcu.c")]),
     ("qsbr.", (), ("src/urcu-qsbr.c",), ["src/urcu-qsbr.c", "src/urcu-wait.h"],
-     [("wait_gp", "src/urcu-qsbr.c"), ("wait_for_readers", "src/urcu-qsbr.c"), ("urcu_qsbr_synchronize_rcu", "src/urcu-qsbr.c")]),
+     [("wait_gp", "src/urcu-qsbr.c"), ("wait_for_readers", "src/urcu-qsbr.c"), ("urcu_qsbr_synchronize_rcu", "src/urcu-qsbr.c"),
+      ("urcu_qsbr_register_thread", "src/urcu-qsbr.c"), ("urcu_qsbr_unregister_thread", "src/urcu-qsbr.c")]),
     ("poll.", (), ("src/urcu-poll-impl.h",), ["src/urcu-poll-impl.h"],
      [("urcu_poll_worker_cb", "src/urcu-poll-impl.h"), ("start_poll_synchronize_rcu", "src/urcu-poll-impl.h"),
       ("poll_state_synchronize_rcu", "src/urcu-poll-impl.h")], ("call_rcu",)),
     ("bp.", (), ("src/urcu-bp.c",), ["src/urcu-bp.c"],
-     [("smp_mb_master", "src/urcu-bp.c"), ("wait_for_readers", "src/urcu-bp.c"), ("urcu_bp_synchronize_rcu", "src/urcu-bp.c")]),
+     [("smp_mb_master", "src/urcu-bp.c"), ("wait_for_readers", "src/urcu-bp.c"), ("urcu_bp_synchronize_rcu", "src/urcu-bp.c"),
+      ("urcu_bp_register", "src/urcu-bp.c"), ("urcu_bp_unregister", "src/urcu-bp.c"), ("add_thread", "src/urcu-bp.c"),
+      ("arena_alloc", "src/urcu-bp.c"), ("expand_arena", "src/urcu-bp.c"), ("cleanup_thread", "src/urcu-bp.c"),
+      ("remove_thread", "src/urcu-bp.c"), ("find_chunk", "src/urcu-bp.c"), ("urcu_bp_prune_registry", "src/urcu-bp.c"),
+      ("urcu_bp_before_fork", "src/urcu-bp.c"), ("urcu_bp_after_fork_parent", "src/urcu-bp.c"),
+      ("urcu_bp_after_fork_child", "src/urcu-bp.c")]),
 ]
 
 
@@ -1496,52 +1529,72 @@ def main():
                 errors.append(str(e))
         trs.append(tr)
     if not consts_txt:
-        # the constants program is compiled inside the library's own translation units (private struct types, enums and
-        # #defines of src/urcu.c and everything it includes, and of src/workqueue.c): static names both define are renamed
-        c = ["#define _LGPL_SOURCE 1", "#define RCU_MEMBARRIER 1", '#include "urcu.c"',
-             "#define set_thread_cpu_affinity wq_set_thread_cpu_affinity", "#define free_completion wq_free_completion",
-             "#define futex_wait wq_futex_wait", "#define futex_wake_up wq_futex_wake_up",
-             '#include "workqueue.c"', "#undef set_thread_cpu_affinity", "#undef free_completion", "#include <stdio.h>", "#include <stddef.h>", "#include <poll.h>", "#include <limits.h>",
-             "#include <stdlib.h>", "#include <errno.h>", "#include <signal.h>", "#include <pthread.h>", "#include <urcu/futex.h>", "#include <urcu/ref.h>",
-             "#include <urcu/urcu-memb.h>", "#include <urcu/urcu-bp.h>", "#include <urcu/urcu-qsbr.h>", "#include <urcu/wfstack.h>",
-             "#include <urcu/lfstack.h>", "#include <urcu/wfcqueue.h>", "#include <urcu/rculfqueue.h>", "#include <urcu/call-rcu.h>",
-             "#include <urcu/workqueue.h>" if os.path.exists(os.path.join(REPO, "include/urcu/workqueue.h")) else "",
-             '#include "urcu-wait.h"', '#include "workqueue.h"']
-        # object-like #defines of the private headers a translated function's constants come from, copied textually
-        for f in sorted(set(x for tr in trs for x in tr.define_files)):
-            for m in re.finditer(r"^[ \t]*#[ \t]*define[ \t]+([A-Z][A-Z0-9_]*)[ \t]+(.+)$", trs[0].texts.get(f) or strip_comments(open(os.path.join(REPO, f)).read()), re.M):
-                c.append("#ifndef %s\n#define %s %s\n#endif" % (m.group(1), m.group(1), m.group(2).strip()))
-        c.append("/* never called here: the program only prints constants */")
-        c.append("__attribute__((weak)) int compat_futex_noasync(int32_t *u, int o, int32_t v, const struct timespec *t, int32_t *u2, int32_t v3) { return -1; }")
-        c.append("__attribute__((weak)) int compat_futex_async(int32_t *u, int o, int32_t v, const struct timespec *t, int32_t *u2, int32_t v3) { return -1; }")
-        c.append("int main(void) {")
-        need, cex, zero = set(), {}, set()
+        # The constants programs are compiled inside the library's own translation units (private struct types, enums and
+        # #defines): one program per context – src/urcu.c (+ everything it includes) together with src/workqueue.c (static names
+        # both define are renamed), and one each for the units whose own file is another flavor's .c file.
+        def ctx_of(tr):
+            own = sorted(tr.own_files)
+            if own and own[0] in ("src/urcu-bp.c", "src/urcu-qsbr.c"):
+                return own[0]
+            return "main"
+        ctxs = {}
         for tr in trs:
-            need |= tr.need_consts
-            cex.update(tr.cexprs)
-            zero |= tr.zero_offsets
-        def pr(n, txt):
-            # pointer-valued constants other than the (T *) -1 sentinels, and complements, are printed unsigned
-            if n.startswith("NOT_"):
-                return 'printf("%s %%lu\\n", (unsigned long)(%s));' % (n, txt)
-            return ('if (__builtin_classify_type(%s) == 5 && (long)(%s) != -1) printf("%s %%lu\\n", (unsigned long)(%s)); '
-                    'else printf("%s %%ld\\n", (long)(%s));' % (txt, txt, n, txt, n, txt))
-        for n in sorted(need):
-            c.append(pr(n, n))
-        for n, txt in sorted(cex.items()):
-            c.append(pr(n, txt))
-        for tr in trs:
-            for n, txt in sorted(tr.local_consts.items()):
+            ctxs.setdefault(ctx_of(tr), []).append(tr)
+        for old in os.listdir(os.path.dirname(out_c) or "."):
+            if old.startswith(os.path.basename(out_c)[:-2] + ".") and old.endswith(".c"):
+                os.unlink(os.path.join(os.path.dirname(out_c) or ".", old))
+        for ctx, ctrs in ctxs.items():
+            if ctx == "main":
+                c = ["#define _LGPL_SOURCE 1", "#define RCU_MEMBARRIER 1", '#include "urcu.c"',
+                     "#define set_thread_cpu_affinity wq_set_thread_cpu_affinity", "#define free_completion wq_free_completion",
+                     "#define futex_wait wq_futex_wait", "#define futex_wake_up wq_futex_wake_up",
+                     '#include "workqueue.c"', "#undef set_thread_cpu_affinity", "#undef free_completion"]
+            else:
+                c = ["#define _LGPL_SOURCE 1", '#include "%s"' % os.path.basename(ctx)]
+            c += ["#include <stdio.h>", "#include <stddef.h>", "#include <poll.h>", "#include <limits.h>",
+                  "#include <stdlib.h>", "#include <errno.h>", "#include <signal.h>", "#include <pthread.h>", "#include <sys/mman.h>",
+                  "#include <unistd.h>", "#include <urcu/futex.h>", "#include <urcu/ref.h>", "#include <urcu/wfstack.h>",
+                  "#include <urcu/lfstack.h>", "#include <urcu/wfcqueue.h>", "#include <urcu/rculfqueue.h>", "#include <urcu/rculfstack.h>",
+                  "#include <urcu/wfqueue.h>"]
+            if ctx == "main":
+                c += ["#include <urcu/urcu-bp.h>", "#include <urcu/urcu-qsbr.h>", '#include "urcu-wait.h"', '#include "workqueue.h"']
+            # object-like #defines of the private headers a translated function's constants come from, copied textually
+            for f in sorted(set(x for tr in ctrs for x in tr.define_files)):
+                for m in re.finditer(r"^[ \t]*#[ \t]*define[ \t]+([A-Z][A-Z0-9_]*)[ \t]+(.+)$", ctrs[0].texts.get(f) or strip_comments(open(os.path.join(REPO, f)).read()), re.M):
+                    c.append("#ifndef %s\n#define %s %s\n#endif" % (m.group(1), m.group(1), m.group(2).strip()))
+            c.append("/* never called here: the program only prints constants */")
+            c.append("__attribute__((weak)) int compat_futex_noasync(int32_t *u, int o, int32_t v, const struct timespec *t, int32_t *u2, int32_t v3) { return -1; }")
+            c.append("__attribute__((weak)) int compat_futex_async(int32_t *u, int o, int32_t v, const struct timespec *t, int32_t *u2, int32_t v3) { return -1; }")
+            c.append("int main(void) {")
+            need, cex, zero = set(), {}, set()
+            for tr in ctrs:
+                need |= tr.need_consts
+                cex.update(tr.cexprs)
+                zero |= tr.zero_offsets
+
+            def pr(n, txt):
+                # pointer-valued constants other than the (T *) -1 sentinels, and complements, are printed unsigned
+                if n.startswith("NOT_"):
+                    return 'printf("%s %%lu\\n", (unsigned long)(%s));' % (n, txt)
+                return ('if (__builtin_classify_type(%s) == 5 && (long)(%s) != -1) printf("%s %%lu\\n", (unsigned long)(%s)); '
+                        'else printf("%s %%ld\\n", (long)(%s));' % (txt, txt, n, txt, n, txt))
+            for n in sorted(need):
+                c.append(pr(n, n))
+            for n, txt in sorted(cex.items()):
                 c.append(pr(n, txt))
-        for ty, mem in sorted(zero):
-            c.append("_Static_assert(offsetof(%s, %s) == 0, \"caa_container_of(%s,%s) is not the identity\");" % (ty, mem, ty, mem))
-        # file-level preprocessor conditions that are not plain defined()-tests: evaluated here, used by pass 2
-        for cond in sorted(set(u for tr in trs for _, u in tr.pp_unknown)):
-            if "defined" in cond and re.search(r"\b(RCU_\w+|HAS_INCOHERENT_CACHES)\b", cond):
-                continue
-            c.append("#if %s\nprintf(\"%s 1\\n\");\n#else\nprintf(\"%s 0\\n\");\n#endif" % (cond, pp_key(cond), pp_key(cond)))
-        c.append("return 0; }")
-        open(out_c, "w").write("\n".join(c) + "\n")
+            for tr in ctrs:
+                for n, txt in sorted(tr.local_consts.items()):
+                    c.append(pr(n, txt))
+            for ty, mem in sorted(zero):
+                c.append("_Static_assert(offsetof(%s, %s) == 0, \"caa_container_of(%s,%s) is not the identity\");" % (ty, mem, ty, mem))
+            # file-level preprocessor conditions that are not plain defined()-tests: evaluated here, used by pass 2
+            for cond in sorted(set(u for tr in ctrs for _, u in tr.pp_unknown)):
+                if "defined" in cond and re.search(r"\b(RCU_\w+|HAS_INCOHERENT_CACHES)\b", cond):
+                    continue
+                c.append("#if %s\nprintf(\"%s 1\\n\");\n#else\nprintf(\"%s 0\\n\");\n#endif" % (cond, pp_key(cond), pp_key(cond)))
+            c.append("return 0; }")
+            path = out_c if ctx == "main" else out_c[:-2] + "." + os.path.basename(ctx)[:-2].replace("-", "_") + ".c"
+            open(path, "w").write("\n".join(c) + "\n")
         if errors:
             sys.stderr.write("\n".join("gen_src: " + e for e in errors) + "\n")
         return 0
